@@ -134,7 +134,7 @@ class FaultFS:
         self.snaps = []        # after each write-side event: (target, tmp, listing)
         self.reads = []
         self.n = 0
-        self.fault = fault     # {'idx': k, 'part': fraction, 'sticky': bool}
+        self.fault = fault     # {'idx': k, 'part': fraction, 'sticky': bool, 'cleanup': bool}
         self.fired = False
 
     # -- helpers
@@ -185,6 +185,10 @@ class FaultFS:
                     partial(ev)
                 ev.append('FAULT')
                 raise Injected(5, 'injected I/O error')
+            if self.fired and ev[0] == 'remove' and self.fault.get('cleanup'):
+                # a second fault, in the clean-up path: the remove of the `finally` fails as well
+                ev.append('FAULT')
+                raise Injected(5, 'injected I/O error in the clean-up')
             if self.fired == 'write' and ev[0] == 'write' and self.fault.get('sticky'):
                 # the disk is full: a write failed, and so does every later one (nothing of it reaches the file)
                 ev[2] = ''
@@ -570,6 +574,14 @@ def step_record(bench, m, exc):
             'hooks': hooks_of(m) if m is not None else None}
 
 
+def litter_listing(rec):
+    """the directory listing the litter monitor is to judge: when the remove of the temporary file was itself made to fail,
+    the temporary file cannot be expected to be gone and is left out (anything else in the directory still counts)"""
+    if any(e[0] == 'remove' and e[-1] == 'FAULT' for e in rec['evs']):
+        return [x for x in rec['listing'] if x != TMP]
+    return rec['listing']
+
+
 def ser_chunks(data, buf=None):
     """the writes by which `json.dump(data, f, indent=2); f.write('\\n')` reaches the file descriptor when `f` is Python's
     text file with the given buffering, computed without the code under test: -> list of bytes"""
@@ -646,11 +658,15 @@ def run_impl(spec, case, trials=True, crash_budget=None, rng=None):
                         m.saveParameters()
                 for k in range(nops):
                     # a write fails having written nothing / half of it / half of it and so does every later write (disk full)
-                    for part, sticky in (((0, False), (0.5, False), (0.5, True)) if rec['evs'][k][0] == 'write' else ((0, False),)):
+                    kind = rec['evs'][k][0]
+                    variants = [(0, False, False), (0.5, False, False), (0.5, True, False)] if kind == 'write' else [(0, False, False)]
+                    if kind != 'remove' and (kind != 'write' or k % 3 == 1):
+                        variants.append((0, False, True))      # ... and the remove of the clean-up fails as well
+                    for part, sticky, cleanup in variants:
                         fs.set_state(pre[0], pre[1])
                         m.persistentData = believed
                         m.paramCallbacks = {n: list(cbs) for n, cbs in callbacks.items()}
-                        fs.reset({'idx': k, 'part': part, 'sticky': sticky})
+                        fs.reset({'idx': k, 'part': part, 'sticky': sticky, 'cleanup': cleanup})
                         e1 = None
                         try:
                             trigger(True)
@@ -664,7 +680,7 @@ def run_impl(spec, case, trials=True, crash_budget=None, rng=None):
                         except Exception as e:  # pylint: disable=broad-except
                             e2 = type(e).__name__
                         t2 = step_record(bench, m, e2)
-                        out['trials'].append({'step': len(out['steps']) - 1, 'k': k, 'part': part, 'sticky': sticky, 'pre': pre, 'via': via,
+                        out['trials'].append({'step': len(out['steps']) - 1, 'k': k, 'part': part, 'sticky': sticky, 'cleanup': cleanup, 'pre': pre, 'via': via,
                                               'first': t1, 'second': t2, 'data': rec['data']})
                 fs.set_state(post[0], post[1])
                 m.persistentData = post_believed
@@ -887,7 +903,7 @@ def gen_case(rng, spec, big):
         acts.append(act)
     case = {'acts': acts, 'file': None, 'stale': None, 'fault': None, 'buf': rng.choice(BUFFERINGS)}
     if rng.random() < 0.15:
-        case['fault'] = {'idx': rng.randint(0, 12), 'part': rng.choice([0, 0.5]), 'sticky': rng.random() < 0.3}
+        case['fault'] = {'idx': rng.randint(0, 12), 'part': rng.choice([0, 0.5]), 'sticky': rng.random() < 0.3, 'cleanup': rng.random() < 0.2}
     if rng.random() < 0.25:
         case['stale'] = rng.choice([b'', b'{\n  "p0": 1', b'\xff\xfe garbage']).hex()
     return case
@@ -910,7 +926,7 @@ def place_faults(rng, spec, case):
         n = len(dry[i + 1]['evs']) if i + 1 < len(dry) else 0
         if n and rng.random() < 0.35:
             act['fault'] = {'idx': rng.choice([0, 1, n - 4, n - 3, n - 2, n - 1, rng.randrange(n)]) % n, 'part': rng.choice([0, 0.5, 1]),
-                            'sticky': rng.random() < 0.3}
+                            'sticky': rng.random() < 0.3, 'cleanup': rng.random() < 0.2}
             if act['a'] == 'set' and rng.random() < 0.7:
                 p = next(x for x in spec['params'] if x['name'] == act['name'])
                 for _ in range(rng.randint(1, 3)):
@@ -939,7 +955,7 @@ def model_request(spec, case, ref, impl, tables):
                         break
                     after.append([e2[2], e2[-1] == 'FAULT'])
                 break
-        return {'idx': f['idx'], 'part': part, 'after': after}
+        return {'idx': f['idx'], 'part': part, 'after': after, 'cleanup': bool(f.get('cleanup'))}
     given = {p['name']: p['name'] in spec['cfg'] for p in spec['params']}
     userwrite = {p['name']: p['write'] for p in spec['params']}
     dts = {p['name']: p['dt'] for p in spec['params']}
@@ -1092,7 +1108,7 @@ def judge_failed_startup(ctx, res, spec, case, ref, first, full):
                                       'impl': {k: got[k] for k in keys}})
     reqs = [{'p': 'C17', 'k': 'judge_snapshots', 'old': hexo(first['pre'][0]), 'new': new.hex(),
              'snaps': [hexo(s[0]) for s in first['snaps']]},
-            {'p': 'C17', 'k': 'judge_litter', 'target': TARGET, 'listing': first['listing']}]
+            {'p': 'C17', 'k': 'judge_litter', 'target': TARGET, 'listing': litter_listing(first)}]
     again = restart(spec, first['target'], first['tmp'])
     if again['values'] is None:
         res.violations.append({'sig': 'C17:startup-aborted-after-crash:' + str(again['exc']),
@@ -1157,7 +1173,7 @@ def check_case(ctx, res, spec, case, quick_crash=3, kind='history'):
                          'snaps': [hexo(s[0]) for s in rec['snaps']]})
             tags.append(('snap', ('step', i)))
             res.traces += 1
-            reqs.append({'p': 'C17', 'k': 'judge_litter', 'target': TARGET, 'listing': rec['listing']})
+            reqs.append({'p': 'C17', 'k': 'judge_litter', 'target': TARGET, 'listing': litter_listing(rec)})
             tags.append(('litter', ('step', i)))
     # ---- fork trials
     for j, t in enumerate(impl['trials']):
@@ -1165,13 +1181,13 @@ def check_case(ctx, res, spec, case, quick_crash=3, kind='history'):
         reqs.append({'p': 'C17', 'k': 'judge_snapshots', 'old': hexo(t['pre'][0]), 'new': new.hex(),
                      'snaps': [hexo(s[0]) for s in t['first']['snaps']]})
         tags.append(('snap', ('trial', j)))
-        reqs.append({'p': 'C17', 'k': 'judge_litter', 'target': TARGET, 'listing': t['first']['listing']})
+        reqs.append({'p': 'C17', 'k': 'judge_litter', 'target': TARGET, 'listing': litter_listing(t['first'])})
         tags.append(('litter', ('trial', j)))
         reqs.append({'p': 'C17', 'k': 'judge_retry', 'new': new.hex(), 'mid': hexo(t['first']['target']),
                      'fin': hexo(t['second']['target']), 'ops2': len(t['second']['evs'])})
         tags.append(('retry', ('trial', j)))
         res.traces += 2
-        res.count('fault.at.' + t['first']['evs'][t['k']][0] + ('.disk-full' if t.get('sticky') else '')
+        res.count('fault.at.' + t['first']['evs'][t['k']][0] + ('.disk-full' if t.get('sticky') else '') + ('.and-cleanup' if t.get('cleanup') else '')
                   if t['k'] < len(t['first']['evs']) else 'fault.unreached')
     # ---- "a save that failed is attempted again by the next save" along the history itself: after a step in which a save hit the
     # injected fault and did not get the snapshot onto the disk, the next step that is a save by the documented triggers
